@@ -34,6 +34,10 @@ def near_points(node, env, rng, out, fwd=lambda p: p):
                 t = rng.choice([Fr(0), Fr(1), Fr(rng.randint(0, 16), 16)]) + rng.choice(deltas)
                 if k == "tri" and rng.random() < 0.4:
                     t = 1 - s + rng.choice(deltas)
+                if rng.random() < 0.15:
+                    # on the lines through the edges, beyond the corners
+                    far = Fr(rng.choice([1, 2, 4]), 4) * rng.choice([1, -1])
+                    s, t = rng.choice([(1 + far, -far), (Fr(0), 1 + abs(far)), (1 + abs(far), Fr(0)), (-abs(far), Fr(1)), (Fr(1), -abs(far))])
                 out.append(fwd([o[0] + s * d1[0] + t * d2[0], o[1] + s * d1[1] + t * d2[1]]))
         elif k == "circle":
             (cx, cy), (r,) = node.pfs[0].eval(env), node.pfs[1].eval(env)
@@ -69,7 +73,7 @@ def near_points(node, env, rng, out, fwd=lambda p: p):
 
 def make_case(ctx, idx):
     rng = ctx.rng
-    mode = rng.choice(["solid2", "solid2", "solid2", "solid1", "solid3", "prod", "bdry", "bdry"])
+    mode = rng.choice(["solid2", "solid2", "solid2", "solid1", "solid3", "prod", "bdry", "bdry", "bdry-adjacent"])
     params = rng.choice([[], ["t"], ["t"], ["t", "D"]])
     g = Gen(rng, params=params)
     depth = rng.choice([1, 2, 2, 3, 3]) if ctx.quick else rng.choice([1, 2, 3, 3, 4])
@@ -87,6 +91,20 @@ def make_case(ctx, idx):
         ga = Gen(rng, params=params + (["s"] if rng.random() < 0.6 else []), allow_translate=False, allow_rotate=False)
         a = ga.solid(min(depth, 2), "x")
         node = geomgen.Node("prod", None, [], [a, b])
+    elif mode == "bdry-adjacent":
+        # union of two parallelograms that share an edge (an L-shape / strip built from blocks)
+        params = []
+        g = Gen(rng, params=[])
+        while True:
+            a = g.prim2("x")
+            if a.kind == "par":
+                break
+        o, c1, c2 = [p_.eval({}) for p_ in a.pfs]
+        d1 = [c1[0] - o[0], c1[1] - o[1]]
+        sh = lambda pt: geomgen.PF([geomgen.c(pt[0] + d1[0]), geomgen.c(pt[1] + d1[1])])
+        b = geomgen.Node("par", "x", [sh(o), sh(c1), sh(c2)])
+        inner = geomgen.Node("union", None, [], [a, b] if rng.random() < 0.5 else [b, a])
+        node = geomgen.Node("bdry", None, [], [inner])
     else:
         g.allow_rotate = False
         g.allow_translate = False
@@ -103,6 +121,14 @@ def make_case(ctx, idx):
             d = geomgen.DIM[var]
             pt[var] = [Fr(rng.randint(-5 * 32, 5 * 32), 32) for _ in range(d)]
         rows.append((pt, env))
+    ring_rows = []
+    if mode == "bdry-adjacent":
+        # points on the open shared edge: c1 + t*(c2 - o)
+        ring_rows = list(range(len(rows), len(rows) + 7))
+        for t8 in (1, 2, 3, 4, 5, 6, 7):
+            t = Fr(t8, 8)
+            rows.append(({"x": [f32(c1[0] + t * (c2[0] - o[0])), f32(c1[1] + t * (c2[1] - o[1]))]}, {}))
+        mode = "bdry"
     # near-edge points (only for single-variable expressions)
     if len(node.vars()) == 1:
         var = node.vars()[0]
@@ -113,7 +139,8 @@ def make_case(ctx, idx):
             extra += [({var: [f32(a) for a in p]}, env) for p in pts if len(p) == geomgen.DIM[var]]
         rng.shuffle(extra)
         rows += extra[: ctx.scale(40, 120)]
-    return dict(id=idx, mode=mode, dom=node.describe(), params=params,
+    return dict(id=idx, mode=mode, adjacent=(node.kind == "bdry" and node.kids[0].kind == "union" and all(k.kind == "par" for k in node.kids[0].kids)
+                                        and not node.free_vars() and bool(ring_rows)), ring_rows=ring_rows, dom=node.describe(), params=params,
                 rows=[({k_: [str(a) for a in v_] for k_, v_ in pt.items()}, {k_: [str(a) for a in v_] for k_, v_ in env.items()})
                       for pt, env in rows])
 
@@ -322,6 +349,61 @@ def operand_boundary_all(cases, rep):
         operand_boundary_finish(cs, job, replies[a:a + n], rep)
 
 
+RING = [(Fr(1), Fr(0)), (Fr(0), Fr(1)), (Fr(-1), Fr(0)), (Fr(0), Fr(-1)), (Fr(3, 5), Fr(4, 5)), (Fr(-3, 5), Fr(4, 5)),
+        (Fr(3, 5), Fr(-4, 5)), (Fr(-3, 5), Fr(-4, 5)), (Fr(4, 5), Fr(3, 5)), (Fr(-4, 5), Fr(3, 5)), (Fr(4, 5), Fr(-3, 5)),
+        (Fr(-4, 5), Fr(-3, 5)), (Fr(5, 13), Fr(12, 13)), (Fr(-12, 13), Fr(5, 13)), (Fr(12, 13), Fr(-5, 13)), (Fr(-5, 13), Fr(-12, 13))]
+RING_DELTA = Fr(1, 32)
+
+
+def interior_acceptance_all(cases, results, rep):
+    """'rejects points farther than the tolerance from the boundary': a 2-D point accepted by a boundary test
+    whose whole neighbourhood of radius 1/32 (centre, 16 directions, two radii) lies inside the solid domain with
+    margin (exact model) is an interior point of the set — accepting it is a failing input."""
+    jobs, lines = [], []
+    for cs, res in zip(cases, results):
+        if cs["mode"] != "bdry" or "bools" not in res:
+            continue
+        node = geomgen.from_json(cs["dom"])
+        if node.vars() != ["x"]:
+            continue
+        solid = node.kids[0].tokens()
+        acc = [i for i, b in enumerate(res["bools"]) if b]
+        picked = sorted(set(acc[:20] + acc[-20:] + [i for i in cs.get("ring_rows", []) if res["bools"][i]]))
+        for i in picked:
+            pt, env = cs["rows"][i]
+            x, y = [Fr(a) for a in pt["x"]]
+            ee = {k: [Fr(a) for a in v] for k, v in env.items()}
+            ls = []
+            for rad in (RING_DELTA, RING_DELTA / 2):
+                for dx, dy in RING:
+                    ls.append(f"sd {solid} {env_tokens({'x': [x + rad * dx, y + rad * dy]})} {env_tokens(ee)}")
+            ls.append(f"sd {solid} {env_tokens({'x': [x, y]})} {env_tokens(ee)}")
+            jobs.append((cs, i, len(lines), len(ls)))
+            lines += ls
+    if not lines:
+        return
+    replies = common.run_driver("C05", lines)
+    for cs, i, a, n in jobs:
+        rs = replies[a:a + n]
+        rep.count("accepted-boundary-points-ring-tested")
+        if any(r == "none" for r in rs):
+            continue
+        vals = [Fr(r) for r in rs]
+        pt, env = cs["rows"][i]
+        where = dict(dom=cs["dom"], expression=geomgen.from_json(cs["dom"]).tokens(), point=pt, params=env)
+        # no probe outside the set, and all but a few (those on a line through the point) strictly inside
+        if all(v_ >= 0 for v_ in vals) and sum(1 for v_ in vals if v_ > MARGIN) >= len(vals) - 5:
+            finding = "union_shared_boundary_piece" if cs.get("adjacent") else None
+            rep.fail(f"boundary membership accepts the point {[float(Fr(a)) for a in pt['x']]}, but none of 33 probe points within "
+                     f"distance {float(RING_DELTA)} of it lies outside the domain and at least 28 lie strictly inside (exact signed CSG margin): it is an interior point, farther than the tolerance from the boundary",
+                     where, finding=finding)
+        # every probe (and the point itself) strictly outside the set: an exterior point
+        elif all(v_ < -MARGIN for v_ in vals):
+            rep.fail(f"boundary membership accepts the point {[float(Fr(a)) for a in pt['x']]}, but it and all 32 probe points within distance "
+                     f"{float(RING_DELTA)} of it lie strictly outside the domain (exact signed CSG margin): it is farther than the tolerance from the boundary",
+                     where)
+
+
 def run(ctx, rep, cases=None):
     rep.rule = ("domain expressions generated from the public constructors (depth in input_distribution), parameter-dependent shapes, "
                 "1-3 parameter rows paired row-wise with the query points; queries = random dyadic points + points at relative "
@@ -335,6 +417,7 @@ def run(ctx, rep, cases=None):
         spans.append((len(lines), len(ls)))
         lines += ls
     replies = common.run_driver("C05", lines)
+    results = []
     for cs, (a, n) in zip(cases, spans):
         node = geomgen.from_json(cs["dom"])
         rep.count("mode:" + cs["mode"])
@@ -343,6 +426,7 @@ def run(ctx, rep, cases=None):
             rep.count("node:" + kd)
         rep.count("param-rows:%d" % len({str(e) for _, e in cs["rows"]}) if cs["params"] else "param-rows:0")
         res = run_impl(cs)
+        results.append(res)
         nontrivial = node.depth() > 1 or bool(node.free_vars())
         rep.case(dict(dom=cs["dom"], rows=len(cs["rows"])), nontrivial,
                  sample=dict(expression=node.tokens(), first_query=cs["rows"][0], implementation=(res.get("bools") or [res])[0],
@@ -375,6 +459,7 @@ def run(ctx, rep, cases=None):
                 rep.count("within-margin(skipped)")
         boundary_acceptance(cs, rep)
     operand_boundary_all(cases, rep)
+    interior_acceptance_all(cases, results, rep)
 
 
 def replay(ctx, obj):
